@@ -129,6 +129,9 @@ def c02():
     for r in c["runs"]:
         if r["crash"] or r["hang"] or r["mode"] == "np" or r["late"] or r.get("nonterminating") or r.get("premature"):
             continue
+        if _blocked_bad(r) and r.get("reruns") is None and not r.get("resettled"):
+            v.notes.append("%s: processes blocked at quiescence, but the run was not repeated (more suspects than the repetition budget): not judged" % r["id"])
+            continue
         if r.get("reruns") is not None and r.get("confirm", 0) == 0:
             continue          # (printed less than the reference once, never again in three repetitions: the run was cut short, its survivors are not stuck)
         judged += 1
@@ -235,7 +238,9 @@ def c04():
             # non-polarized execution of a program with contraction may duplicate a provider before its first interaction:
             # admitted multisets = same labels, each at least as often as in the reference
             np_bounds += 1
-            if set(want) != set(got) or any(got[l] < want[l] for l in want):
+            if (set(want) != set(got) or any(got[l] < want[l] for l in want)) and r.get("reruns") is not None and r.get("confirm", 0) == 0:
+                v.notes.append("%s (np, with contraction) printed less than the reference once, not again in the repetitions: not judged" % r["id"])
+            elif set(want) != set(got) or any(got[l] < want[l] for l in want):
                 v.violation("%s (np, with contraction) printed %s; not admitted by the SAX semantics (%s, eager copies may only add repetitions)" %
                             (r["prog"], " ".join(sorted(r["prints"])), " ".join(e["bag"])),
                             {"program": info[r["prog"]]["text"], "run": r["id"], "printed": r["prints"], "reference_bag": e["bag"]},
